@@ -92,7 +92,7 @@ MUTANTS = [
         let serialized_len = IndexStatePersister::new(&self.paths).save(snapshot)?;
         snapshot.stats.index.serialized_size_bytes = serialized_len;
 """)],
-     "expect": [("C09", "C09|R4")]},
+     "expect": [("C09", "C09|R4"), ("C03", "C03|R2")]},
     {"name": "c09-no-sync-tmp",
      "edits": [("src/io.rs",
                 """    temp_file.sync_data().map_err(|e| IoError::AtomicWrite {
@@ -133,7 +133,7 @@ MUTANTS = [
             (hashes, rolled)
         };
 """)],
-     "expect": [("C09", "C09|R3")]},
+     "expect": [("C09", "C09|R3"), ("C03", "C03|R1")]},
 ]
 
 MUTANTS += [
@@ -483,6 +483,78 @@ MUTANTS += [
                 """            staging_files.push(entry.path());""",
                 """            staging_files.push(cas_inner.paths.cas_root_path().join(entry.file_name()));""")],
      "expect": [("C08", "C08|R3")]},
+]
+
+MUTANTS += [
+    {"name": "c03-record-in-two-writes",
+     "edits": [("src/wal/storage.rs",
+                """        record.extend_from_slice(op_data);
+
+        self.writer.write_all(&record).map_err(|io_err| WalError::WriteWalEntryDataIO {""",
+                """        self.writer.write_all(&record).map_err(|io_err| WalError::WriteWalEntryDataIO {
+            op_version,
+            segment_id: self.segment_id,
+            source: io_err,
+        })?;
+
+        self.writer.write_all(op_data).map_err(|io_err| WalError::WriteWalEntryDataIO {""")],
+     "expect": [("C03", "C03|R4")]},
+    {"name": "c03-index-written-in-place",
+     "edits": [("src/index/persistence.rs",
+                """        atomically_write_file_bytes(index_path, index_tmp_path, &data_bytes)?;""",
+                """        let _ = index_tmp_path;
+        std::fs::write(index_path, &data_bytes).map_err(PersisterError::ReadIndexIo)?;""")],
+     "expect": [("C03", "C03|R3"), ("C09", "C09|R4")]},
+    {"name": "c03-segment-created-unconditionally",
+     "edits": [("src/wal/storage.rs",
+                """        if !wal_path.exists() {
+            tracing::debug!(
+                "Ensuring WAL segment file {} (for next op version {}) exists at path: {}",""",
+                """        if segment_id == segment_id {
+            tracing::debug!(
+                "Ensuring WAL segment file {} (for next op version {}) exists at path: {}",""")],
+     "expect": [("C03", "C03|R5")]},
+    {"name": "c03-apply-before-append",
+     "edits": [("src/index/manager.rs",
+                """        let append_info = wal.append_op(&serialized)?;
+
+        let unreferenced = state.apply_logical_op(logical_op).expect("Index is corrupted");
+""",
+                """        let unreferenced = state.apply_logical_op(logical_op).expect("Index is corrupted");
+
+        let append_info = wal.append_op(&serialized)?;
+""")],
+     "expect": [("C03", "C03|R1"), ("C09", "C09|R2")]},
+    {"name": "c03-publish-after-log",
+     "edits": [("src/transaction.rs",
+                """        tracing::debug!(%blob_hash, key = ?self.key, "Committing transaction");
+        let _cas_path = self
+            .cas_inner
+            .cas_manager
+            .commit_blob(self.temp_file.path(), &blob_hash)
+            .map_err(crate::LibError::Cas)?;
+
+        let delete_fn = |hashes: &[BlobHash]| -> Result<(), crate::cas_manager::CasManagerError> {
+            self.cas_inner.cas_manager.delete_blobs(hashes).map(|_| ())
+        };
+
+        // Commit the intent - this applies the WAL operation and deletes unreferenced blobs
+        intent_guard.commit(&delete_fn).map_err(crate::LibError::Index)?;
+""",
+                """        tracing::debug!(%blob_hash, key = ?self.key, "Committing transaction");
+        let delete_fn = |hashes: &[BlobHash]| -> Result<(), crate::cas_manager::CasManagerError> {
+            self.cas_inner.cas_manager.delete_blobs(hashes).map(|_| ())
+        };
+
+        // Commit the intent - this applies the WAL operation and deletes unreferenced blobs
+        intent_guard.commit(&delete_fn).map_err(crate::LibError::Index)?;
+        let _cas_path = self
+            .cas_inner
+            .cas_manager
+            .commit_blob(self.temp_file.path(), &blob_hash)
+            .map_err(crate::LibError::Cas)?;
+""")],
+     "expect": [("C03", "C03|R1")]},
 ]
 
 BENIGN = []
